@@ -120,6 +120,7 @@ type Link struct {
 	sendIdx   int
 	blackhole bool
 	blockSend bool
+	sendCost  time.Duration
 	t0        time.Time
 
 	// OnSend, if set, is called synchronously from Send (in the sender's
@@ -173,6 +174,14 @@ func (l *Link) SetBlackhole(on, flush bool) {
 	if flush {
 		l.q = nil
 	}
+	l.mu.Unlock()
+}
+
+// SetSendCost makes every Send call take d (a slow transport write): the
+// caller is held for d before the packet is queued.
+func (l *Link) SetSendCost(d time.Duration) {
+	l.mu.Lock()
+	l.sendCost = d
 	l.mu.Unlock()
 }
 
@@ -234,7 +243,16 @@ func (l *Link) Send(ctx context.Context, b []byte) error {
 	l.nSent++
 	p := Parse(b)
 	onSend := l.OnSend
+	cost := l.sendCost
 	l.mu.Unlock()
+
+	if cost > 0 {
+		select {
+		case <-time.After(cost):
+		case <-ctx.Done():
+			return ctx.Err()
+		}
+	}
 
 	if onSend != nil {
 		onSend(idx, p)
